@@ -149,6 +149,7 @@ type scenario struct {
 	unsafe bool // level 0: a non GET backend makes the merger deep-clone the request
 	prop   []string
 	kind   string
+	step   string // reuse streams: which request of which shared instance this is
 }
 
 // ---------- observation ----------
@@ -229,34 +230,42 @@ func copyParams(m map[string]string) map[string]string {
 	return r
 }
 
-func run(sc scenario) (obs observation) {
+// per-request state, carried to the stubs through the context so that one proxy instance
+// can serve many (also concurrent) requests
+type reqState struct {
+	sc   scenario
+	errs []error
+	rec  *recorder
+}
+
+type ctxKey struct{}
+
+func stateOf(ctx context.Context) *reqState { return ctx.Value(ctxKey{}).(*reqState) }
+
+// one endpoint proxy built from one configuration (templates, level, cloning mode,
+// propagated params); call drives one request through it
+type instance struct {
+	lvl     int
+	n       int
+	pats    []string
+	p       proxy.Proxy
+	initErr error
+}
+
+func newInstance(sc scenario) (in *instance) {
 	n := len(sc.ts)
-	errs := make([]error, n)
-	for i := range errs {
-		errs[i] = errors.New(sc.outs[i].tag)
-	}
-	obs.pats = make([]string, n)
-	rec := &recorder{}
-	defer func() {
-		if p := recover(); p != nil {
-			obs.panicv = p
-		}
-		rec.mu.Lock()
-		obs.evs = append([]event(nil), rec.evs...)
-		rec.mu.Unlock()
-	}()
+	in = &instance{lvl: sc.lvl, n: n, pats: make([]string, n)}
 	stub := func(i int, produce func(context.Context, *proxy.Request) (*proxy.Response, error)) proxy.Proxy {
 		return func(ctx context.Context, r *proxy.Request) (*proxy.Response, error) {
-			rec.enter(i, r.Path)
+			st := stateOf(ctx)
+			st.rec.enter(i, r.Path)
 			runtime.Gosched()
 			resp, err := produce(ctx, r)
 			runtime.Gosched()
-			rec.exit(i)
+			st.rec.exit(i)
 			return resp, err
 		}
 	}
-	var p proxy.Proxy
-	req := &proxy.Request{Method: "GET", Params: copyParams(sc.ps0), Headers: map[string][]string{}}
 	if sc.lvl == 0 {
 		ep := &config.EndpointConfig{Endpoint: "/x", Method: "GET", Timeout: 10 * time.Minute, ExtraConfig: extra(sc)}
 		for i, t := range sc.ts {
@@ -265,68 +274,100 @@ func run(sc scenario) (obs observation) {
 				m = "POST"
 			}
 			ep.Backend = append(ep.Backend, &config.Backend{URLPattern: t.render(), Method: m})
-			obs.pats[i] = ep.Backend[i].URLPattern
+			in.pats[i] = ep.Backend[i].URLPattern
 		}
 		stubs := make([]proxy.Proxy, n)
 		for i := range sc.ts {
 			i := i
-			stubs[i] = proxy.NewRequestBuilderMiddleware(ep.Backend[i])(stub(i, func(context.Context, *proxy.Request) (*proxy.Response, error) {
-				return scripted(sc, i, errs)
+			stubs[i] = proxy.NewRequestBuilderMiddleware(ep.Backend[i])(stub(i, func(ctx context.Context, _ *proxy.Request) (*proxy.Response, error) {
+				st := stateOf(ctx)
+				return scripted(st.sc, i, st.errs)
 			}))
 		}
-		p = proxy.NewMergeDataMiddleware(logging.NoOp, ep)(stubs...)
-	} else {
-		svc := config.ServiceConfig{Version: config.ConfigVersion, Timeout: 10 * time.Minute, Host: []string{"http://127.0.0.1:8081"}}
-		ep := &config.EndpointConfig{Endpoint: "/x/{id}/{name}", Method: "GET", ExtraConfig: extra(sc)}
-		for _, t := range sc.ts {
-			ep.Backend = append(ep.Backend, &config.Backend{URLPattern: t.renderCfg()})
-		}
-		svc.Endpoints = []*config.EndpointConfig{ep}
-		if err := svc.Init(); err != nil {
-			obs.initErr = err
-			return
-		}
-		for i := range sc.ts {
-			obs.pats[i] = ep.Backend[i].URLPattern
-		}
-		bf := func(be *config.Backend) proxy.Proxy {
-			for i := range ep.Backend {
-				if ep.Backend[i] != be {
-					continue
-				}
-				i := i
-				o := sc.outs[i]
-				if o.kind == 0 && o.complete && o.data != nil {
-					// a successful answer travels as an HTTP body through the real HTTP proxy
-					body, err := json.Marshal(o.data)
-					if err != nil {
-						panic(err)
-					}
-					exec := func(_ context.Context, _ *http.Request) (*http.Response, error) {
-						return &http.Response{StatusCode: 200, Header: http.Header{"Content-Type": []string{"application/json"}},
-							Body: io.NopCloser(strings.NewReader(string(body)))}, nil
-					}
-					return stub(i, proxy.NewHTTPProxyWithHTTPExecutor(be, exec, be.Decoder))
-				}
-				return stub(i, func(context.Context, *proxy.Request) (*proxy.Response, error) { return scripted(sc, i, errs) })
-			}
-			panic("unknown backend")
-		}
-		var err error
-		p, err = proxy.NewDefaultFactory(bf, logging.NoOp).New(ep)
-		if err != nil {
-			obs.initErr = err
-			return
-		}
-		req.Query = map[string][]string{}
+		in.p = proxy.NewMergeDataMiddleware(logging.NoOp, ep)(stubs...)
+		return
 	}
-	ctx, cancel := context.WithCancel(context.Background())
-	defer cancel()
-	obs.resp, obs.err = p(ctx, req)
-	// translate the error values into tags
-	obs.err = tagErr(obs.err, errs, sc)
+	svc := config.ServiceConfig{Version: config.ConfigVersion, Timeout: 10 * time.Minute, Host: []string{"http://127.0.0.1:8081"}}
+	ep := &config.EndpointConfig{Endpoint: "/x/{id}/{name}", Method: "GET", ExtraConfig: extra(sc)}
+	for _, t := range sc.ts {
+		ep.Backend = append(ep.Backend, &config.Backend{URLPattern: t.renderCfg()})
+	}
+	svc.Endpoints = []*config.EndpointConfig{ep}
+	if err := svc.Init(); err != nil {
+		in.initErr = err
+		return
+	}
+	for i := range sc.ts {
+		in.pats[i] = ep.Backend[i].URLPattern
+	}
+	bf := func(be *config.Backend) proxy.Proxy {
+		for i := range ep.Backend {
+			if ep.Backend[i] != be {
+				continue
+			}
+			i := i
+			// a successful answer travels as an HTTP body through the real HTTP proxy
+			exec := func(ctx context.Context, _ *http.Request) (*http.Response, error) {
+				body, err := json.Marshal(stateOf(ctx).sc.outs[i].data)
+				if err != nil {
+					panic(err)
+				}
+				return &http.Response{StatusCode: 200, Header: http.Header{"Content-Type": []string{"application/json"}},
+					Body: io.NopCloser(strings.NewReader(string(body)))}, nil
+			}
+			viaHTTP := proxy.NewHTTPProxyWithHTTPExecutor(be, exec, be.Decoder)
+			return stub(i, func(ctx context.Context, r *proxy.Request) (*proxy.Response, error) {
+				st := stateOf(ctx)
+				o := st.sc.outs[i]
+				if o.kind == 0 && o.complete && o.data != nil {
+					return viaHTTP(ctx, r)
+				}
+				return scripted(st.sc, i, st.errs)
+			})
+		}
+		panic("unknown backend")
+	}
+	var err error
+	in.p, err = proxy.NewDefaultFactory(bf, logging.NoOp).New(ep)
+	if err != nil {
+		in.initErr = err
+	}
 	return
 }
+
+// call sends one request (outcomes and endpoint parameters of sc) through the instance
+func (in *instance) call(sc scenario) (obs observation) {
+	obs.pats = in.pats
+	if in.initErr != nil {
+		obs.initErr = in.initErr
+		return
+	}
+	st := &reqState{sc: sc, errs: make([]error, in.n), rec: &recorder{}}
+	for i := range st.errs {
+		st.errs[i] = errors.New(sc.outs[i].tag)
+	}
+	defer func() {
+		if p := recover(); p != nil {
+			obs.panicv = p
+		}
+		st.rec.mu.Lock()
+		obs.evs = append([]event(nil), st.rec.evs...)
+		st.rec.mu.Unlock()
+	}()
+	req := &proxy.Request{Method: "GET", Params: copyParams(sc.ps0), Headers: map[string][]string{}}
+	if in.lvl == 1 {
+		req.Query = map[string][]string{}
+	}
+	ctx, cancel := context.WithCancel(context.WithValue(context.Background(), ctxKey{}, st))
+	defer cancel()
+	obs.resp, obs.err = in.p(ctx, req)
+	// translate the error values into tags
+	obs.err = tagErr(obs.err, st.errs, sc)
+	return
+}
+
+// a fresh instance for one request
+func run(sc scenario) observation { return newInstance(sc).call(sc) }
 
 type taggedErr struct {
 	coq string
@@ -433,8 +474,31 @@ func shareStrings(term string) string {
 	return b.String()
 }
 
-func emitCase(w *out.Writer, sc scenario) {
-	obs := run(sc)
+// one case ready to be written
+type built struct {
+	Term       string                 `json:"term"`
+	Js         map[string]interface{} `json:"js"`
+	Sig        string                 `json:"sig"`
+	Canon      string                 `json:"canon"`
+	Nontrivial bool                   `json:"nontrivial"`
+	Counts     []string               `json:"counts"`
+}
+
+func (b built) add(w *out.Writer) {
+	for _, c := range b.Counts {
+		w.Count(c)
+	}
+	w.Add(b.Term, b.Js, b.Sig, b.Canon, b.Nontrivial)
+}
+
+func emitCase(w *out.Writer, sc scenario) { buildCase(sc, run(sc)).add(w) }
+
+type counter struct{ keys []string }
+
+func (c *counter) Count(k string) { c.keys = append(c.keys, k) }
+
+func buildCase(sc scenario, obs observation) built {
+	w := &counter{}
 	if obs.initErr != nil {
 		// a generated configuration must initialise: make it visible as a failing case
 		w.Count("init_error")
@@ -526,11 +590,19 @@ func emitCase(w *out.Writer, sc scenario) {
 	if holes > 0 {
 		w.Count("has_placeholders")
 	}
-	w.Add(term, js, sig, canon.String(), bad < n || resolved > 0)
+	if sc.step != "" {
+		js["reuse"] = sc.step
+		canon.WriteString("|" + sc.step)
+	}
+	return built{term, js, sig, canon.String(), bad < n || resolved > 0, w.keys}
 }
 
 func main() {
 	cfg := out.ParseFlags("C02")
+	if cfg.Extra == concurrentChild {
+		concurrentChildMain(cfg)
+		return
+	}
 	r := rng.New(cfg.Seed)
 	w := out.NewWriter(cfg, "Verif.Corr.C02", 150)
 	for _, sc := range corpus() {
@@ -551,6 +623,9 @@ func main() {
 	for k := 0; k < nRand/4; k++ {
 		emitCase(w, malformedScenario(r))
 	}
+	nSeq, nConc := reuseStreams(cfg, r, w)
+	w.Meta["reuse_sequential_cases"] = nSeq
+	w.Meta["reuse_concurrent_cases"] = nConc
 	w.Meta["exhaustive_scenarios"] = nExh
-	w.Close(fmt.Sprintf("regression corpus; exhaustive: N=2..5 x position 0..N-1 of the first non-successful backend x kind {error, (nil,nil), incomplete payload, incomplete nil-data payload, complete nil-data payload} + all successful, every later backend referencing every earlier response with paths of depth 1..3, x value variants (strings incl. empty/spaces/unicode/url metacharacters, booleans, json.Number literals incl. big ints/decimals/exponents, arrays, null, objects) x 2 levels (merge middleware behind the request builder; config.Init + default factory with HTTP-decoded answers); random: N=2..%d, random documents/templates (existing, missing, partially missing paths, later/own/out-of-range indexes, repeated placeholders, endpoint parameters, overlapping keys, propagated params); malformed: values and parameters with braces, empty path segments, parameters named like destinations. nontrivial = some backend is non-successful or some placeholder is resolved", maxN), true)
+	w.Close(fmt.Sprintf("regression corpus; exhaustive: N=2..5 x position 0..N-1 of the first non-successful backend x kind {error, (nil,nil), incomplete payload, incomplete nil-data payload, complete nil-data payload} + all successful, every later backend referencing every earlier response with paths of depth 1..3, x value variants (strings incl. empty/spaces/unicode/url metacharacters, booleans, json.Number literals incl. big ints/decimals/exponents, arrays, null, objects) x 2 levels (merge middleware behind the request builder; config.Init + default factory with HTTP-decoded answers); random: N=2..%d, random documents/templates (existing, missing, partially missing paths, later/own/out-of-range indexes, repeated placeholders, endpoint parameters, overlapping keys, propagated params); malformed: values and parameters with braces, empty path segments, parameters named like destinations; instance reuse: ONE proxy per configuration serving a sequence of 3-6 requests that differ in propagated values / endpoint parameters / outcome kinds (corpus orders + random sequences, both levels), and one proxy hit by 12 goroutines behind a start gate over 8 distinct requests (run in a child process; every distinct (request, observation) pair emitted once). nontrivial = some backend is non-successful or some placeholder is resolved", maxN), true)
 }
